@@ -2430,6 +2430,10 @@ class Convex:
     def __init__(self, affine_in, affine_out, xtype, sign,
                  multiplier=1, sum_axis=False, params=None):
 
+        if isinstance(affine_out, (Vars, Affine)):
+            if affine_out.model is not affine_in.model:
+                raise ValueError('Models of operands mismatch.')
+
         self.model = affine_in.model
         self.affine_in = affine_in
         self.affine_out = affine_out
